@@ -15,9 +15,9 @@ pub fn run(ctx: &Ctx) -> i32 {
     };
     let acc = sweep(ctx, &alpha, 2, &deep, &check_gas_rules);
     let meta = Meta {
-        rule: "every macro program of depth <= 2 on every spec and <= 3 on one spec (quick) / all specs (thorough) over the fee-safe alphabet (no program pays the sender or the coinbase) x 14 transaction variants (legacy, value, 1559, two tight gas limits, sender = coinbase, rewards off, access list, blob, create, set-code, zero price) x 19 specs".into(),
+        rule: "every macro program of depth <= 2 on every spec and <= 3 on one spec (quick) / all specs (thorough) over the fee-safe alphabet (no program pays the sender or the coinbase) x 15 transaction variants (legacy, value, 1559, two tight gas limits, sender = coinbase, rewards off, access list, blob, create, set-code, zero price) x 19 specs".into(),
         assumptions: vec!["intrinsic and floor gas are recomputed from the EIP constants; blob gas price from the bigint fake exponential".into()],
-        bounds: json!({"depth": "2 on every spec; 3 on one spec (quick) / on all 19 specs (thorough)", "macros": alpha.len(), "tx_variants": 14}),
+        bounds: json!({"depth": "2 on every spec; 3 on one spec (quick) / on all 19 specs (thorough)", "macros": alpha.len(), "tx_variants": 15}),
         min_distinct: 300,
         exhaustive: true,
         explanation: "per-transaction inequalities and exact sender/coinbase balance deltas".into(),
